@@ -42,6 +42,7 @@ pub enum Dimensionality {
 }
 
 impl Dimensionality {
+    #[cfg_attr(kani, kani::ensures(|r: &bool| *r == verif_hooks::kani_harnesses::dims::in_active_subspace(*self, v)))]
     pub fn vector_is_valid(&self, v: DVec3) -> bool {
         match self {
             Self::OneD => v.y == 0. && v.z == 0.,
